@@ -15,7 +15,7 @@ git apply $out/change$n.diff || { echo "change does not apply"; exit 2; }
 go test -count=1 -run "^($tests)\$" ./$dir > /tmp/confirm-$c-$n-mut.log 2>&1 && echo "with change: demo PASSES (bad)" || echo "with change: demo FAILS (good)"
 rm $dir/seeded_${n}_test.go
 pkgs=$(git diff --name-only | xargs -n1 dirname | sort -u | sed 's#^#./#' | paste -sd' ')
-go test -count=1 $pkgs ./pkg/core/ 2>&1 | grep -v "^ok\|no test files" | grep -v "TestUT" | head -10
+go test -count=1 -skip '^TestUT$' $pkgs ./pkg/core/ 2>&1 | grep -v "^ok\|no test files" | grep -v "TestUT" | head -10
 echo "suite of [$pkgs ./pkg/core/] done (lines above = failures, none = passes)"
 git checkout -q -- . ; git clean -qfd
 rm -f /tmp/confirm-$c-$n-*.log
